@@ -97,6 +97,8 @@ pub fn prop(c: &Case, log: &mut CaseLog) -> Verdict {
     }
     log.nontrivial = must.len() >= 2;
     log.label_if(must.len() >= 3, "occurrences>=3");
+    log.label_if(p.features.contains("shadowing_definition_at_the_zero_page_boundary"), "shadowing-definition-at-zp-boundary");
+    log.label_if(p.features.contains("forward_ref_to_shadowing_definition"), "forward-ref-to-shadowing-definition");
     {
         // an occurrence of the renamed symbol inside a test
         let tests: Vec<(usize, usize)> = text.match_indices(".test ").map(|(i, _)| (i, text[i..].find("\n}").map(|e| i + e).unwrap_or(text.len()))).collect();
